@@ -114,7 +114,8 @@ def snap(obj, units=False, _seen=None, _depth=0):
     d = getattr(obj, "__dict__", None)
     if d is None:
         return "<%s>" % type(obj).__name__
-    out = {"__class__": type(obj).__name__ if not type(obj).__name__.startswith("_Sim") else type(obj).__name__[4:]}
+    cn = type(obj).__name__
+    out = {"__class__": cn[4:] if cn.startswith("_Sim") else cn[3:] if cn in ("SimAtmo", "SimVacuum") else cn}
     for k in sorted(d):
         if k in _SKIP_ATTRS or callable(d[k]):
             continue
